@@ -257,7 +257,7 @@ theorem handleFindInfo_safe (srv : Server) (hw : TableWF srv = true) (cap : Nat)
     dsimp only
     rw [if_neg (by omega)]
     obtain ⟨acc, hacc, hlen⟩ := infoLoop_some srv hw (a0.uuid != 1) (if (a0.uuid != 1) = true then 4 else 18)
-      (firstIndex srv e) (cap - 2) rfl srv.attrs.length (s - 1) [] (Nat.zero_le _)
+      (some (lastHandleIndex srv e)) (cap - 2) rfl srv.attrs.length (s - 1) [] (Nat.zero_le _)
     rw [hacc]
     dsimp only
     exact safe_emit _ _ (by simp only [List.length_cons]; omega)
@@ -299,8 +299,8 @@ theorem handleFindByType_safe (srv : Server) (cap : Nat) (op : UInt8) (p : Bytes
     · safe_close
 
 /-- `collect_primary_services` / `read_primary_service_response` stay inside `[begin, end)` -/
-theorem primLoop_len (startIdx endHandle room : Nat) (l : List (Nat × Nat × Bytes)) :
-    ∀ st : Prim, st.acc.length ≤ room → (primLoop startIdx endHandle room l st).acc.length ≤ room := by
+theorem primLoop_len (startIdx endIdx room : Nat) (l : List (Nat × Nat × Bytes)) :
+    ∀ st : Prim, st.acc.length ≤ room → (primLoop startIdx endIdx room l st).acc.length ≤ room := by
   induction l with
   | nil => intro st h; exact h
   | cons x rest ih =>
